@@ -561,6 +561,11 @@ class ServeMpsMedia(MediaRequestBase):
             start_time += seg_time
         mod_seg, seg_start_tc, origin_time = representation.get_segment_index(
             start_time)
+        if origin_time > 0:
+            # start_time is later than the middle of the last segment (or
+            # beyond the end of the file), so the search has wrapped into
+            # the next loop of the media. There is no source segment to play.
+            raise ValueError('Period start is beyond end of media')
 
         origin_time = -seg_start_tc
         if seg_time is not None:
